@@ -695,3 +695,177 @@ func firstLineWith(s string, subs ...string) string {
 	}
 	return ""
 }
+
+// ---- C14: map iteration order as a symbolic choice (self-composition) ----
+
+var orderShapes = []varShape{
+	{"two-packages-in-one-type", "M($a int, $b int, _ map[$P.T]$Q.U)"},
+	{"two-packages-unnamed", "M(_ map[$P.T]$Q.U, _ $P.T, _ $Q.U)"},
+	{"func-type-two-packages", "M($a string, f func($P.T) $Q.U) error"},
+}
+
+// HOrder: every map iteration of the registry code is a nondeterministic permutation; the same
+// method is processed twice, each time under its own arbitrary iteration orders, and the results
+// (identifier names, import list with aliases) must be equal.
+func HOrder() *Harness {
+	hh := &Harness{
+		ID:          "H.order",
+		Doc:         "methodData + Registry.Imports executed twice from SSA on identical symbolic inputs, every map range (Registry.searchImport, Registry.Imports, MethodScope.resolveImportVarConflicts) iterating in an independently chosen arbitrary order: identifiers, import paths and aliases must coincide",
+		Funcs:       []string{"pkg/moq.(*Mocker).methodData", "internal/registry.(MethodScope).resolveImportVarConflicts", "internal/registry.(Registry).searchImport", "internal/registry.(Registry).Imports"},
+		Assumptions: []string{"Go map iteration order is arbitrary: each range over a map forks over every permutation of its entries", "same input assumptions as H.vars"},
+		Outside:     []string{"maps with more than 3 entries", "nondeterminism outside map iteration (the SSA scan of C14 lists go statements, select, time, rand, environment reads reachable from moq.New/Mock: none)"},
+		Confirm:     orderConfirm,
+	}
+	hh.Instances = func(env *Env) []Instance {
+		bound := 6
+		hh.Bounds = []string{fmt.Sprintf("%d signature shapes × destination {same, other}; ≤ 3 map entries ⇒ ≤ 6 orders per range, two independent executions", len(orderShapes))}
+		var out []Instance
+		for _, sh := range orderShapes {
+			for _, dest := range []string{"same", "other"} {
+				sh, dest := sh, dest
+				pkgs, _, err := TypeCheck(varShapePkgs(sh, nil))
+				if err != nil {
+					panic(fmt.Sprintf("shape %s: %v", sh.Name, err))
+				}
+				out = append(out, Instance{Name: sh.Name + "," + dest, Run: func(ic *IC) *exec.Stats {
+					ic.StrBound = bound
+					ic.MaxDepth = 40
+					ic.MaxPaths = 20000
+					fn := env.Repo.Method(pkgMoq, "Mocker", "methodData")
+					impFn := env.Repo.Method(pkgRegistry, "Registry", "Imports")
+					return ic.Explore(func(ex *exec.Exec) {
+						c := ex.C
+						ex.User["orderMode"] = true
+						type res struct {
+							names []*smt.Term
+							imps  []*smt.Term
+						}
+						runOnce := func() (*res, bool) {
+							vr, fobj, mocker := setupVars(ex, env, pkgs, bound, dest)
+							if env.KF.Open("C12", "vars:chosen-name-looks-generated") != nil {
+								for _, x := range vr.sym {
+									last := c.ToCode(c.Substr(x, c.Sub(c.Len(x), c.IntC(1)), c.IntC(1)))
+									ex.AssumeDomain(c.And(c.Not(c.SuffixOf(c.StrC("Out"), x)), c.Not(c.SuffixOf(c.StrC("MoqParam"), x)),
+										c.Not(c.And(c.Ge(last, c.IntC('0')), c.Le(last, c.IntC('9'))))))
+								}
+							}
+							ret, pan := ex.CallCatch(fn, []exec.Value{mocker, fobj})
+							if pan != nil {
+								return nil, false
+							}
+							r := &res{}
+							md := ret.(*exec.Struct)
+							me := env.Repo.named(pkgTemplate, "MethodData")
+							for _, f := range []string{"Params", "Returns"} {
+								for _, pv := range ex.SliceElems(md.F[fieldIndex(me, f)]) {
+									r.names = append(r.names, readParam(ex, env.Repo, pv).Name)
+								}
+							}
+							iv, pan := ex.CallCatch(impFn, []exec.Value{vr.reg.Load(ex)})
+							if pan != nil {
+								return nil, false
+							}
+							pt := env.Repo.named(pkgRegistry, "Package")
+							for _, e := range ex.SliceElems(iv) {
+								pl := e.(*exec.StructLoc)
+								alias := pl.F[fieldIndex(pt, "Alias")].Load(ex).(*smt.Term)
+								p, _ := pl.F[fieldIndex(pt, "pkg")].Load(ex).(*MPkg)
+								r.imps = append(r.imps, c.Concat(p.Path, c.StrC(" as "), c.Ite(c.Eq(alias, c.StrC("")), p.Name, alias)))
+							}
+							return r, true
+						}
+						r1, ok1 := runOnce()
+						r2, ok2 := runOnce()
+						ic.Witness(ex, nil)
+						if ok1 != ok2 {
+							ex.Fail("C14/C19: whether name allocation panics depends on map iteration order")
+							return
+						}
+						if !ok1 {
+							return // panics are C19's business (H.vars)
+						}
+						if len(r1.names) != len(r2.names) || len(r1.imps) != len(r2.imps) {
+							ex.Fail("C14: the number of identifiers or imports depends on map iteration order")
+							return
+						}
+						var eqs []*smt.Term
+						for i := range r1.names {
+							eqs = append(eqs, c.Eq(r1.names[i], r2.names[i]))
+						}
+						ex.Oblige(c.And(eqs...), "C14: parameter and result identifiers do not depend on map iteration order")
+						eqs = nil
+						for i := range r1.imps {
+							eqs = append(eqs, c.Eq(r1.imps[i], r2.imps[i]))
+						}
+						ex.Oblige(c.And(eqs...), "C14: the sorted import list and its aliases do not depend on map iteration order")
+					})
+				}})
+			}
+		}
+		return out
+	}
+	return hh
+}
+
+// orderConfirm: run the real CLI repeatedly on the realised input; different outputs confirm.
+func orderConfirm(ic *IC, ob *exec.Obligation) *Violation {
+	env := ic.Env
+	parts := strings.Split(ic.Name, ",")
+	var sh *varShape
+	for i := range orderShapes {
+		if orderShapes[i].Name == parts[0] {
+			sh = &orderShapes[i]
+		}
+	}
+	if sh == nil || len(parts) != 2 {
+		return nil
+	}
+	var kv []string
+	for _, k := range sortedKeys(ob.Model) {
+		if strings.HasPrefix(k, "name_") {
+			kv = append(kv, k+"="+ob.Model[k])
+		}
+	}
+	key := "order:" + ic.Name + ":" + strings.Join(kv, ",")
+	v := &Violation{Property: "C14", Harness: ic.H.ID, Instance: ic.Name, Label: ob.Label, Model: ob.Model, Key: key}
+	dir := env.replayDir("C14", key)
+	v.Replay = dir
+	cs := varsCase(*sh, ob.Model, parts[1])
+	cs.ThenBuild = false
+	// write to stdout instead of a file so that runs do not see each other's output
+	var args []string
+	for i := 0; i < len(cs.Args); i++ {
+		if cs.Args[i] == "-out" {
+			i++
+			continue
+		}
+		args = append(args, cs.Args[i])
+	}
+	cs.Args = args
+	writeTree(filepath.Join(dir, "tree"), cs.Files)
+	os.WriteFile(filepath.Join(dir, "replay.sh"), []byte(fmt.Sprintf("#!/bin/sh\n# realised input under tree/: run 'moq %s' from tree/%s 40 times and compare the outputs byte for byte\ncat \"$(dirname \"$0\")/replay.out\"\n", strings.Join(cs.Args, " "), cs.Cwd)), 0o755)
+	outs := map[string]int{}
+	for i := 0; i < 40; i++ {
+		res, root, err := env.RunCLI(cs)
+		if root != "" {
+			os.RemoveAll(root)
+		}
+		if err != nil {
+			v.Detail = err.Error()
+			return v
+		}
+		outs[res.Out]++
+	}
+	tr := fmt.Sprintf("40 runs of moq %s produced %d distinct outputs\n", strings.Join(cs.Args, " "), len(outs))
+	i := 0
+	for o, n := range outs {
+		if i < 2 {
+			tr += fmt.Sprintf("--- output seen %d times (method M only) ---\n%s\n", n, short(firstLineWith(o, ") M("), 300))
+		}
+		i++
+	}
+	os.WriteFile(filepath.Join(dir, "replay.out"), []byte(tr), 0o644)
+	v.Confirmed = len(outs) > 1
+	v.Detail = short(tr, 600)
+	return v
+}
